@@ -69,7 +69,12 @@ def rules(model: Model, tier: str) -> List[RuleResult]:
     _hy = ac.hygiene_rules(model, ac.get_fncls(model, '_RootFinder'), PROP, min_copies=1, min_opt=2, min_conv=0, min_idx=4)
     from ..rules import substitution as _subst
     _sub = _subst.rules(model, PROP, tier)
-    return [R1, R2, R3, R4, R5, R6, J, U, *_hy, RJ, RB, *_sub]
+    # the adjoint systems of this backward are solved by the iterative methods; for a non-Hermitian / not positive definite operator their
+    # set-up falls back to the normal equations, which must be A^H A x = A^H b (shared with C01-N)
+    from ..rules import c01_layout as _c01l
+    LSN = RuleResult(PROP, "LS-N", "inner linear solve: the normal-equation fallback applies one adjoint map to operator and right-hand side (A^H A x = A^H b)", min_instances=3)
+    _c01l.check_normal_equations(model, LSN)
+    return [R1, R2, R3, R4, R5, R6, J, U, *_hy, RJ, RB, *_sub, LSN]
 
 
 def _saved_output_names(fc) -> set:
